@@ -244,12 +244,19 @@ impl<'a> PerTypeLookup<'a> {
 					register(UnionVariantLookupKey::SeqOrTupleOrTupleStruct, 2);
 				}
 				SchemaNode::Decimal(Decimal { repr, .. }) => {
-					register_type_name("Decimal");
 					match repr {
 						DecimalRepr::Fixed(fixed) => {
 							register_name(&fixed.name);
+							// It can also be designated by `Decimal`, but what deserialization
+							// gives for it is the name of the fixed, so that should not take
+							// precedence over a decimal that is not a fixed (for which
+							// deserialization gives `Decimal`)
+							register_name_with_precedence(
+								Cow::Borrowed("Decimal"),
+								NAME_WITHOUT_NAMESPACE,
+							);
 						}
-						DecimalRepr::Bytes => {}
+						DecimalRepr::Bytes => register_type_name("Decimal"),
 					}
 					register(UnionVariantLookupKey::Integer, 5);
 					register(UnionVariantLookupKey::Integer4, 5);
